@@ -399,3 +399,35 @@ fn r_scope_offsets() {
         Err(_) => assert!(off >= len || n > len - off),
     }
 }
+
+// binary search on a STRIDED array (stride > element size): probes must use the stride, like get_item does
+//@ harness r_bsearch_stride kind=bounded:4elems fns=ReadArray::binary_search_by,ReadCtxt::read_array_stride
+#[kani::proof]
+#[kani::unwind(8)]
+fn r_bsearch_stride() {
+    let (buf, len) = any_buf();
+    let scope = ReadScope::new(&buf[..len]);
+    let mut ctxt = scope.ctxt();
+    let count: usize = kani::any();
+    let stride: usize = kani::any();
+    kani::assume(count <= 4 && stride >= 2 && stride <= 4);
+    if let Ok(a) = ctxt.read_array_stride::<U16Be>(count, stride) {
+        let key: u16 = kani::any();
+        let mut prev = 0u16;
+        for m in 0..count {
+            let v = a.get_item(m).unwrap();
+            kani::assume(m == 0 || prev < v);
+            prev = v;
+        }
+        let m: usize = kani::any();
+        kani::assume(m < count);
+        let vm = a.get_item(m).unwrap();
+        match a.binary_search_by(|x| x.cmp(&key)) {
+            Ok(k) => assert!(k < count && a.get_item(k) == Some(key), "binary search agrees with indexed access"),
+            Err(k) => {
+                assert!(k <= count);
+                assert!(vm != key, "Err only when no element of the window compares Equal");
+            }
+        }
+    }
+}
